@@ -14,7 +14,9 @@ EXHAUSTIVE = {'quick': False, 'thorough': False}
 ASSUMPTIONS = ['textwrap.fill is an oracle: fill_text is exercised on the real code only (totality, no model comparison)',
                'wall-clock bound: 10 s per case on the real code; termination of the model is by structural recursion on the tree',
                'model of latex2text validated only by this correspondence; the text-spec database is regenerated from /repo']
-PARTIAL = ['C07_total_given_parse is relative to termination of the tolerant parser within its fuel (C06, proved elsewhere); '
+PARTIAL = ['C07_total_given_parse is relative to termination of the tolerant parser within its fuel; C07_total composes it with '
+           'C06_total (every string, every context: the model\'s fuel is computed from the context) into an unconditional '
+           'statement for every input string and option record; '
            'wall-clock time is not a theorem; fill_text (textwrap) is not modelled',
            'DESIGN C07_every_known_name is covered by the universally quantified C07_tree_no_error + C07_parser_results_wf '
            '(all names, all argument shapes) rather than stated per name']
